@@ -404,6 +404,6 @@ def o_diff(case, T):
 
 
 def build(chk: Check) -> None:
-    chk.sub("same_crs", o_same, strategy=s_same(), n={"quick": 5000, "thorough": 300000})
+    chk.sub("same_crs", o_same, cov={"quick": 1500, "thorough": 100000}, strategy=s_same(), n={"quick": 5000, "thorough": 300000})
     chk.sub("diff_crs", o_diff, strategy=s_diff(), n={"quick": 700, "thorough": 40000}, shrink=False)
     chk.sub("diff_crs_wide", o_diff, strategy=s_diff(wide=True), n={"quick": 300, "thorough": 15000}, shrink=False)
